@@ -13,6 +13,33 @@ COMMON_NOTE = (
 )
 
 CLAIMED = {
+    "C03": dict(
+        text="Lean theorems about a names-level model of residue.py's atom bookkeeping and of the hydrogen-bond optimisation objects, for EVERY residue, EVERY moved set and EVERY outcome of every hydrogen-bond attempt in any number and order: "
+        "a Flip object ends after complete with exactly the names the residue had before (no *FLIP copy left, nothing lost or doubled, and finalize never hits remove_atom's KeyError); an Alcoholic object ends with the original names plus the polar hydrogen once and no LP* "
+        "(given 1-3 atoms bonded to the oxygen - shown necessary, and checked at every real finalize); a Water ends with its names plus H1 and H2 once each and no LP*; cleanup removes the doubled carboxylic proton exactly when both are present; "
+        "found and missing atoms of apply_force_field are together a permutation of all atoms (from C01). Tie: trace replay - every method call on the real Flip/Alcoholic/Water objects and cleanup is logged with the residue's name list before/after, return value, fixed flag and bond count, and replayed in the model. "
+        "Oracle on real runs: final names of every fully parameterised residue (no duplicate, no LP*/...FLIP, exactly the atom set of its run-time reference or of the definition its final state is named after, one carboxylic proton); every input heavy atom of a recognised residue kept exactly once unless its deletion was reported; found U missing = all, PQR lines = found.",
+        note="partial: Carboxylic (doubles, O-swap through the temporary name FLIP), heavy-atom repair, add_hydrogens and patch application are covered by the final-state oracle on the runs made, not by theorems; no nucleic-acid structure offline (5'-phosphate removal not exercised)",
+        ref="DESIGN.md §4 C03",
+    ),
+    "C04": dict(
+        text="Lean theorems: for ALL coordinates, torsion values and target angles, Debump.set_dihedral_angle leaves every atom outside the moved set exactly where it was and applies one and the same isometry, fixing both axis atoms, to the moved ones; "
+        "if the moved set satisfies the decidable RigidCond, every bond length and 1-3 distance (bond angle) of the residue is unchanged; RigidCond, and 'no backbone atom, OXT, HO, H2, H3 is ever in the moved set', hold by kernel evaluation over the regenerated topology "
+        "for 33 base amino-acid definitions x 9 terminus-patch combinations x every torsion, with all atoms and with heavy atoms only; for every definition whatsoever the backbone is never moved. "
+        "Kernel-checked over a call model REGENERATED from the AST of the whole package: the functions that assign coordinates of an existing object are exactly ten listed ones; the torsion routine is reachable from non_trivial only under not-assign-only and (debump or opt), from main_driver only under not-clean. "
+        "Tie/oracle: run-time write monitor on Atom.x/y/z; at every observed torsion change the real reference, refdistance, moved set and coordinates vs the model; final vs input coordinates of every input heavy atom, bond lengths, 1-3 distances, SG-SG of bridged cysteines, no motion under --clean/--assign-only/--nodebump --noopt; debumping forced by packed waters at every residue type and chain position.",
+        note="theorems over the reals (rounding observed <= 1e-12 A); variants met at run time outside the kernel table are evaluated by the compiled model per call; that the hydrogen-placement writers only touch hydrogens is monitored, not proved; the deliberate O/OXT and OD1/OD2 relabelling of protonated carboxyl groups is treated as relabelling, not motion",
+        ref="DESIGN.md §4 C04",
+    ),
+    "C05": dict(
+        text="Lean theorems over the reals, for ALL coordinates: an atom placed by find_coordinates lies at its template distance from every fit atom up to that atom's fit residual (| |new-P| - |h-p| | <= |T p - P|); atoms placed by one fit are at exactly their template distance and distinct template points stay distinct; "
+        "rotate_tetrahedral keeps every rotated atom's distance to both bond atoms and to the other rotated atoms for every angle, three 120-degree turns or +120/-120 return every atom (the probing rotations move nothing); make_atom_with_no_bonds places the atom exactly 1 A away; "
+        "in every variant of the kernel-checked C04 table a torsion change keeps every bond length and bond angle with all atoms present, hydrogens included (added atoms stay attached). "
+        "Tie/oracle: every observed find_coordinates / rotate_tetrahedral / make_atom_with_no_bonds call vs the Float model (1e-9), the residual inequality evaluated at every observed fit, every observed torsion change checked for all bonded and 1-3 distances, "
+        "and on the returned biomolecule every added atom's bond lengths (within the largest fit residual of its residue), bond angles (within input distortion + 8 degrees) and 0.5 A separation.",
+        note="which atoms each placement fits on (get_nearest_bonds, branch choice in rebuild_tetrahedral/optimize.py) is read from the monitored calls, not modelled; final-state tolerances are the oracle's reading of 'within the distortion already present'; no nucleic-acid structure offline",
+        ref="DESIGN.md §4 C05",
+    ),
     "C01": dict(
         text="Lean theorems, for EVERY parameter file / names file / canonical-name list: apply_force_field returns as found exactly the atoms the map answers, each with exactly the map's charge and radius, and as missing exactly the others (nothing defaulted, borrowed, lost, duplicated); "
         "every entry of the final map is field-for-field a row of the parameter file; last row wins; the documented semantics of residue-rename and atom-alias sections; terminus/state naming priorities. "
@@ -133,7 +160,7 @@ REASON_PENDING = "check under construction in this session; not claimed until it
 
 
 def main():
-    HOLD = set()  # built, proofs in progress
+    HOLD = {"C03"}  # built, proofs in progress
     claimed = [p["id"] for p in props if p["id"] in CLAIMED and p["id"] not in HOLD and (ROOT / "harness" / "props" / f"{p['id'].lower()}.py").exists()]
     m = {
         "version": 1,
